@@ -319,7 +319,8 @@ def gen_enum(rng, fam):
     if "'a" in params:
         pool += [("&'a Tag", "&'static Tag")] * 3
     if "N" in params:
-        pool = [p for p in pool if p[0] != "[Tag; 2]"] + [("[Tag; N]", "[Tag; 2]")] * 3
+        # `[T; 2]` and `[Tag; N]` unify (T = Tag, N = 2): two TryFrom impls would overlap (E0119), whatever the derive does
+        pool = [p for p in pool if p[0] not in ("[Tag; 2]", "[T; 2]")] + [("[Tag; N]", "[Tag; 2]")] * 3
     nv = r.choice([1, 2, 2, 3, 3, 3, 4, 4, 4, 5, 5, 6])
     names = r.sample(NAMES, nv)
     shared = [[r.choice(pool) for _ in range(r.choice([1, 1, 2, 2, 3]))] for _ in range(r.choice([1, 2, 2, 3]))]
